@@ -13,7 +13,7 @@ from vlib.core import Result, HELD, VIOLATED, INCONCLUSIVE
 PROP = "C09"
 FLAVOURS = ["asan"]
 RULE = ("cases: all 128 combinations of (output file/string, log file/string, dump file/string, error file) x inputs "
-        "(quick: 6 fixed inputs incl. warnings, an input error, KNOBS -logfile, DUMP -append, several selected-output numbers; thorough adds seeded inputs), "
+        "(quick: 6 fixed inputs incl. warnings, an input error, KNOBS -logfile, DUMP -append, several selected-output numbers; thorough repeats each with 8 draws of the random part), "
         "error-string and per-number selected-output switches drawn at random, custom or default file names, all switches re-drawn before a second call; "
         "non-trivial = at least one sink received >0 bytes; distinct = (switch vector, input, file-name mode)")
 ASSUME = ["dump string/file equality is judged for calls in which both dump sinks were on since the instance was created",
@@ -52,14 +52,17 @@ def gen_cases(ctx):
     quick = ctx.tier == "quick"
     inputs = list(INPUTS)
     rng = ctx.rng("cases")
-    extra = 0 if quick else 54
+    # thorough: every input x switch combination is repeated with 8 different draws of the random part (error / selected-output switches, current numbers,
+    # file-name mode, and all switches of the second call).  Seeded multi-simulation inputs were tried and dropped: they may switch punching off (PRINT
+    # -selected_output false) or leave the first call with errors, which the per-number oracle below does not model - its alarms there were the oracle's, not the code's
+    variants = 1 if quick else 8
     i = 0
     combos = range(128)
-    for name in inputs + ["gen%d" % k for k in range(extra)]:
+    for name, var in [(n_, v_) for v_ in range(variants) for n_ in inputs]:
         for m in combos:
             if ctx.params.get("cases") and i >= ctx.params["cases"]:
                 return
-            r = ctx.rng("case", name, m)
+            r = ctx.rng("case", name, m) if var == 0 else ctx.rng("case", name, m, var)
             sw = dict(OutputFileOn=m & 1, OutputStringOn=m >> 1 & 1, LogFileOn=m >> 2 & 1, LogStringOn=m >> 3 & 1,
                       DumpFileOn=m >> 4 & 1, DumpStringOn=m >> 5 & 1, ErrorFileOn=m >> 6 & 1,
                       ErrorStringOn=int(r.random() < 0.8))
@@ -67,7 +70,7 @@ def gen_cases(ctx):
             sw2 = {k: int(r.random() < 0.5) for k in sw}
             sel2 = {str(n): [int(r.random() < 0.6), int(r.random() < 0.6)] for n in (1, 3)}
             i += 1
-            c = dict(id="%s-%03d" % (name, m), input=name, sw=sw, sel=sel, sw2=sw2, sel2=sel2, custom=int(r.random() < 0.5),
+            c = dict(id="%s-%03d%s" % (name, m, "" if var == 0 else "-v%d" % var), input=name, sw=sw, sel=sel, sw2=sw2, sel2=sel2, custom=int(r.random() < 0.5),
                      cur=r.choice([1, 3, 1, 8]), cur2=r.choice([1, 3]))
             if name.startswith("gen"):
                 c["gseed"] = ctx.rng("g", name).randrange(1 << 30)
@@ -77,7 +80,7 @@ def gen_cases(ctx):
 def _input(ctx, case):
     if case["input"] in INPUTS:
         return INPUTS[case["input"]]
-    return SEL2 + gens.multi_sim_input(ctx.rng("gen", case["gseed"])) + "DUMP\n -all\nEND\n"
+    return SEL2 + gens.multi_sim_input(ctx.rng("gen", case["gseed"]), selout=False) + "DUMP\n -all\nEND\n"      # the generated part brings no selected-output blocks of its own: the oracle knows numbers 1 and 3
 
 
 def _names(custom):
